@@ -131,8 +131,20 @@ fn arb_cfg(u: &mut Unstructured) -> CtxCfg {
 }
 
 fn arb_request(u: &mut Unstructured, a: u8, nvend: usize) -> Vec<u8> {
-    let s = u.arbitrary::<u8>().unwrap_or(0x34);
-    let iid = u.arbitrary::<u8>().unwrap_or(0) & 0x1F;
+    let mut s = u.arbitrary::<u8>().unwrap_or(0x34);
+    let mut iid = u.arbitrary::<u8>().unwrap_or(0) & 0x1F;
+    // half of the requests come from one of two fixed (requester, instance id) pairs
+    match s & 3 {
+        0 => {
+            s = 0x34;
+            iid = 0;
+        }
+        1 => {
+            s = 0x51;
+            iid = 7;
+        }
+        _ => {}
+    }
     let k = u.int_in_range(0..=9u8).unwrap_or(1);
     let (cmd, data): (u8, Vec<u8>) = match k {
         0 | 1 => {
@@ -157,7 +169,14 @@ fn arb_request(u: &mut Unstructured, a: u8, nvend: usize) -> Vec<u8> {
         }
     };
     let dest_eid = u.arbitrary::<u8>().unwrap_or(a);
-    let mut body = vec![0x80 | iid, cmd];
+    // datagram / reserved bits: mostly clear
+    let dbits = match u.arbitrary::<u8>().unwrap_or(0) & 7 {
+        0 => 0x40,
+        1 => 0x20,
+        2 => 0x60,
+        _ => 0,
+    };
+    let mut body = vec![0x80 | dbits | iid, cmd];
     body.extend_from_slice(&data);
     refmodel::build_packet(a, s, dest_eid, s, 0xC8, 0x00, &body)
 }
